@@ -163,6 +163,8 @@ def Clause.text : Clause → String
   | .c05OdTwice => "C05: onDone ran more than once"
   | .c05ClosedBusy => "C05: transport closed while requests were still in flight"
   | .c05DoneBusy => "C05: connection done while not idle"
+  | .c05ClosedRunning r => s!"C05: transport closed while the handler of r{r} was still running (Close must let running handlers finish and close the transport only after they have returned)"
+  | .c05DoneRunning r => s!"C05: connection done (Close and Wait return) while the handler of r{r} was still running"
   | .c05LateDispatch r => s!"C05: r{r} was dispatched although it arrived after shutdown began"
   | .c05Stuck impl => "C05: shutdown did not complete (" ++ impl ++ "): a caller, Close or Wait is still blocked or a goroutine is left parked after every handler returned, every write returned and the reader failed"
   | .c02Dropped r => s!"C02: call r{r} whose id was already in flight was dropped without any response"
